@@ -1,5 +1,7 @@
 import TSSVerif.Model.BoxConc
 import TSSVerif.Props.C15
+import TSSVerif.Gen.Stmts
+import TSSVerif.Model.StmtsExpected
 /-!
 # C14 — silent-mode buffer: exactly-once hand-off across the first-send race
 
@@ -521,5 +523,12 @@ example : Quiescent (runSched exCfg (initSys witnessScripts) witnessSched) := by
   simp at this
   exact this
 example : cntLog ⟨1, 0, 1⟩ (runSched exCfg (initSys witnessScripts) witnessSched).log = 1 := by decide
+
+
+/-- **The source the model was transcribed from is the current source**: the statements of `HandleMessage`, `storeOrForward`, `Send`, `getOrCreateMessagesByTopic`, `markTopicForSender`, `storedMessages.add`, `maybeGC`, `mark`, `sweep`, `startClock`, regenerated from
+`/repo` on this run, are the committed ones (logging left out). A change of any of them — harmless or not — fails here
+first; the differential and monitored runs of this property are then the search for an input on which it fails. -/
+theorem source_as_modelled : TSSVerif.Gen.Stmts.box = TSSVerif.Model.StmtsExpected.box := by
+  decide +kernel
 
 end TSSVerif.Props.C14
